@@ -6,6 +6,7 @@ package main
 import (
 	"bytes"
 	"encoding/binary"
+	"encoding/json"
 	"fmt"
 	"io"
 	"math/rand"
@@ -18,7 +19,18 @@ import (
 
 func init() {
 	checks["C28"] = checkC28
-	replays["C28"] = opsReplay("startup", runStartupOps, func(r *Result, ops, impl []string) { startupOracle(r, ops, impl) })
+	c28ops := opsReplay("startup", runStartupOps, func(r *Result, ops, impl []string) { startupOracle(r, ops, impl) })
+	replays["C28"] = func(r *Result, raw json.RawMessage) {
+		var rp struct {
+			Ops []string `json:"ops"`
+		}
+		json.Unmarshal(raw, &rp)
+		if len(rp.Ops) > 0 && strings.HasPrefix(rp.Ops[0], "connection-in-use") {
+			connectionInUseOutlivesReadTimeouts(r, strings.Contains(rp.Ops[0], "over TCP"))
+			return
+		}
+		c28ops(r, raw)
+	}
 }
 
 func rmCall(conn net.Conn, xid, prog, vers, proc uint32, args []byte) ([]byte, error) {
